@@ -63,6 +63,22 @@ async def boom(*args, **kwargs):
     raise RuntimeError("boom " + repr(args) + repr(sorted(kwargs.items())))
 
 
+class _Registry:
+    """A falsy object (len() == 0) on the way of a dotted path: `ctrlrun.registry.work4`."""
+
+    def __len__(self):
+        return 0
+
+    @staticmethod
+    async def work4(*args, **kwargs):
+        LOG.append((WHO.get(), "work4", repr(args), repr(sorted(kwargs.items()))))
+        _consume(args, kwargs)
+        await asyncio.sleep(0)
+
+
+registry = _Registry()
+
+
 def cb(task_id):
     LOG.append((WHO.get(), "cb", repr(task_id), ""))
 
@@ -389,8 +405,17 @@ def convert(cls, raw):
     if cls == "literal":
         return ast.literal_eval(raw)
     if cls == "path":
-        mod, _, attr = raw.rpartition(".")
-        return getattr(importlib.import_module(mod), attr)
+        # independent resolution: the longest importable module prefix, then attributes
+        names = raw.split(".")
+        for i in range(len(names) - 1, 0, -1):
+            try:
+                obj = importlib.import_module(".".join(names[:i]))
+            except ImportError:
+                continue
+            for n in names[i:]:
+                obj = getattr(obj, n)
+            return obj
+        raise ImportError(raw)
     if cls == "bool":
         return bool(raw)
     raise ValueError(cls)
